@@ -33,6 +33,8 @@ def two_reduced(fn):
 
 
 def run(res, programs, tier):
+    from . import c19
+    c19.shared_r19_2(res, programs)
     res.rule("R13.1", "every fn with two Reduced operands passes check_same_ring_* (rings from both operands) on every path to Return, directly or by delegation; the check dominates every kernel call")
     res.rule("R13.2", "Div reaches panic_divide_by_invalid_modulo on the None edge of inv(); inv_large returns None only on the zero / gcd != 1 edges")
     res.rule("R13.3", "Reduced(..) is constructed only in from_single/from_double/from_large; the check helpers compare by ptr::eq and diverge on mismatch")
